@@ -11,7 +11,7 @@ import re
 
 from vlib import qN, qZ, qbytes, qlist, qopt, qres, qstr, qbool, run_impl, canon_exc
 
-GEN_DEPS = ("Consts.v", "gen_consts")
+GEN_DEPS = ("Consts.v", "gen_consts", "TagTypes.v", "gen_tagtypes")
 MODEL_TARGETS = ["Model/Bf2Import.vo"]
 IMPORTS = "From Bec2 Require Import Gen.Consts Model.Bf2Str Model.Bf2Import."
 
